@@ -17,7 +17,12 @@ package main
 //  4. serves the templates through a counting loader (nothing registered) and fails the j-th load, once with a
 //     sentinel I/O error (oracle as in 2) and once with a wrapped ErrTemplateNotFound (the template vanished: an
 //     error of class not-found, except when every reference to it is an include ... ignore missing);
-//  5. missing:* cases carry a probe callback that is evaluated immediately before an unknown macro / template is
+//  5. dead-sites: raw sources aimed at the two error-discarding code paths that no tokenised template reaches
+//     (renderVariableString's filter fallback for a text node with {{ .. }} in a macro body; the items|sort workaround
+//     for a loop variable name containing a bar). The hook VerifC17DeadSites parses every template source of EVERY case
+//     and reports such node shapes: none may exist (the model leaves the two paths out: Unmodelled). On the raw
+//     sources the first callback invocation fails: invoked => error.
+//  6. missing:* cases carry a probe callback that is evaluated immediately before an unknown macro / template is
 //     looked up: probe invoked => err != nil and "".
 //
 // No known classes: the three violations found on the pinned tree (x.y is defined and the spaceless tag swallowing a
@@ -176,9 +181,9 @@ func newC17Engine(c Case, o c17Opts) *c17Engine {
 }
 
 type c17Run struct {
-	out     string
-	err     error
-	written string // RenderTo only
+	out      string
+	err      error
+	written  string // RenderTo only
 	panicked string
 }
 
@@ -278,6 +283,41 @@ func runC17(cases string, res *Result) {
 				f.Detail += " [class " + knownClass + ": not a listed known finding]"
 			}
 			res.add(f)
+		}
+
+		// ---- 0. the node shapes that reach the two unreachable discard sites must not exist
+		for tn, src := range evalCaseSources(c) {
+			bars, texts, perr := twig.VerifC17DeadSites(src)
+			if perr == nil && (len(bars) > 0 || len(texts) > 0) {
+				fail("disagreement", "dead-site/shape-exists", "no variable name containing | and no text node containing {{ .. }}",
+					fmt.Sprintf("template %s: names %q, text nodes %q", tn, bars, texts),
+					"the parser built a node that reaches renderVariableString / the items|sort workaround, which drop a filter's error; the model leaves those paths out", "")
+			}
+		}
+		if b, _ := c["raw"].(bool); b {
+			res.count(key, false)
+			ce := newC17Engine(c, c17Opts{failAt: 1})
+			if ce.regErr != "" {
+				res.Hist["dead-sites:parse-error"]++
+				return
+			}
+			for _, to := range []bool{false, true} {
+				ce = newC17Engine(c, c17Opts{failAt: 1})
+				r := ce.run(c, to)
+				res.Evaluations++
+				if ce.failed == "" {
+					res.Hist["dead-sites:no-callback-invoked"]++
+					continue
+				}
+				res.Hist["dead-sites:callback-invoked"]++
+				if r.err == nil {
+					fail("oracle", "dead-site/swallowed", "err != nil: the callback "+ce.failed+" was invoked and failed",
+						"nil error, output "+strconv.Quote(r.out+r.written), c.str("scenario"), "")
+				} else if r.panicked == "" && !errors.Is(r.err, c17Sentinel) {
+					fail("oracle", "dead-site/cause-lost", "errors.Is(err, sentinel)", "false; err = "+r.err.Error(), c.str("scenario"), "")
+				}
+			}
+			return
 		}
 
 		// ---- 1. clean run
